@@ -179,8 +179,8 @@ def _unpack_plaintext(data: bytes) -> bytes:
         ) from exc
 
 
-def _compute_call_aad(auth: AuthContext | None) -> bytes:
-    r"""Build the AAD that binds a *call* token to its issuing principal.
+def _compute_call_aad(auth: AuthContext | None, method_name: str | None = None) -> bytes:
+    r"""Build the AAD that binds a *call* token to its issuing principal and method.
 
     Identical in shape to :func:`_compute_aad` but with a distinct
     version-tagged prefix, so a call token and a cursor token are not
@@ -188,14 +188,25 @@ def _compute_call_aad(auth: AuthContext | None) -> bytes:
     other is expected fails the AEAD tag check rather than decoding into a
     payload the reader will misinterpret.
 
+    When ``method_name`` is given it is bound too (length-prefixed, under its
+    own version tag), so a call token minted by one stream method's ``/init``
+    does not open at another method's ``/exchange`` endpoint.  The cursor
+    token needs no separate binding: it names a ``call_id`` that only this
+    method's call token (or a cache entry keyed by this method) resolves.
+
     Args:
         auth: The authentication context for the current request.
+        method_name: The stream method the token belongs to.
 
     Returns:
         Associated-data bytes for the AEAD seal/open call.
 
     """
-    prefix = b"vgi_rpc.call.v1\x00"
+    if method_name is None:
+        prefix = b"vgi_rpc.call.v1\x00"
+    else:
+        method = method_name.encode()
+        prefix = b"vgi_rpc.call.v2\x00" + struct.pack("<I", len(method)) + method
     if auth is None or not auth.authenticated:
         return prefix + b"\x00anonymous"
     domain = (auth.domain or "").encode()
@@ -428,7 +439,7 @@ class _CallStateCache:
     __slots__ = ("_entries", "_lock", "_max_entries", "_ttl")
 
     def __init__(self, max_entries: int = 4096, ttl: float = 3600.0) -> None:
-        self._entries: OrderedDict[tuple[bytes, str], tuple[float, _ResolvedCall]] = OrderedDict()
+        self._entries: OrderedDict[tuple[bytes, str, str], tuple[float, _ResolvedCall]] = OrderedDict()
         self._lock = threading.Lock()
         self._max_entries = max_entries
         self._ttl = ttl
@@ -439,9 +450,9 @@ class _CallStateCache:
             return "\0anonymous"
         return f"{auth.domain or ''}\0{auth.principal or ''}"
 
-    def get(self, call_id: bytes, auth: AuthContext | None, now: float) -> _ResolvedCall | None:
-        """Return the cached call for ``call_id``, or ``None`` on miss/expiry."""
-        key = (call_id, self._identity(auth))
+    def get(self, call_id: bytes, auth: AuthContext | None, now: float, method_name: str = "") -> _ResolvedCall | None:
+        """Return the cached call for ``call_id`` at ``method_name``, or ``None`` on miss/expiry."""
+        key = (call_id, self._identity(auth), method_name)
         with self._lock:
             entry = self._entries.get(key)
             if entry is None:
@@ -453,9 +464,11 @@ class _CallStateCache:
             self._entries.move_to_end(key)
             return resolved
 
-    def put(self, call_id: bytes, auth: AuthContext | None, resolved: _ResolvedCall, now: float) -> None:
-        """Record ``resolved`` under ``call_id``, evicting the oldest if full."""
-        key = (call_id, self._identity(auth))
+    def put(
+        self, call_id: bytes, auth: AuthContext | None, resolved: _ResolvedCall, now: float, method_name: str = ""
+    ) -> None:
+        """Record ``resolved`` under ``call_id`` and ``method_name``, evicting the oldest if full."""
+        key = (call_id, self._identity(auth), method_name)
         with self._lock:
             self._entries[key] = (now + self._ttl, resolved)
             self._entries.move_to_end(key)
@@ -476,6 +489,7 @@ def _mint_call_token(
     auth: AuthContext | None,
     stream_id: str,
     *,
+    method_name: str | None = None,
     now: int | None = None,
 ) -> tuple[bytes, bytes, bytes]:
     """Serialize and seal a stream's call token.  Called once, by ``/init``.
@@ -487,6 +501,7 @@ def _mint_call_token(
         token_key: Master AEAD key from the server config.
         auth: Authenticated identity for AAD binding.
         stream_id: Chain-correlation id.
+        method_name: The stream method being initialised; bound into the AAD.
         now: Override for the baked-in timestamp; default ``time.time()``.
 
     Returns:
@@ -505,7 +520,7 @@ def _mint_call_token(
         call_id,
         stream_id,
         token_key,
-        _compute_call_aad(auth),
+        _compute_call_aad(auth, method_name),
         int(time.time()) if now is None else now,
     )
     return token, call_id, call_state_bytes
